@@ -97,6 +97,60 @@ SPECIFICATION Spec
                         coverage=coverage, timeout=3000, heap="2g")
 
 
+# the characters of BCCacheSource.tla's alphabet (name in the spec -> text in a template source)
+ALPHABET = [("a", "a"), ("A", "A"), ("X", "{{ x }}"), ("SP", " "), ("TAB", "\t"), ("LF", "\n"), ("CR", "\r"),
+            ("VT", "\x0b"), ("FF", "\x0c"), ("FS", "\x1c"), ("NEL", "\x85"), ("NBSP", "\xa0"), ("LS", "\u2028"),
+            ("PS", "\u2029"), ("E", "\xe9")]
+ALPHABET_MORE = [("GS", "\x1d"), ("RS", "\x1e"), ("ZWSP", "\u200b"), ("IDSP", "\u3000")]
+LINE_ENDS = ["LF", "CR", "VT", "FF", "FS", "GS", "RS", "NEL", "LS", "PS"]
+CHAR = dict(ALPHABET + ALPHABET_MORE)
+
+
+def src_tlc(tag, *, alpha, maxlen, cks="exact", emit=False, workers=1):
+    d = core.workdir(PID, f"mc_{tag}")
+    names = [a for a, _ in alpha]
+    mod = d / "MCBCCacheSource.tla"
+    mod.write_text(f"""---- MODULE MCBCCacheSource ----
+EXTENDS BCCacheSource
+MCAlpha == {core.tla_str(names)}
+MCLineEnds == {core.tla_str({a for a in names if a in LINE_ENDS})}
+====
+""")
+    cfg = f"""CONSTANTS
+  Alpha <- MCAlpha
+  MaxLen = {maxlen}
+  LineEnds <- MCLineEnds
+  Cks = "{cks}"
+  EmitCases = {"TRUE" if emit else "FALSE"}
+SPECIFICATION Spec
+INVARIANT TypeOK
+INVARIANT C27_EditChangesSource
+INVARIANT C27_ChecksumSeparatesSources
+"""
+    return core.run_tlc(PID, "MCBCCacheSource", cfg, workers=workers, name=f"tlc_{tag}", extra_modules=[mod],
+                        timeout=3000, heap="2g")
+
+
+def edit_pairs_of(r):
+    """the (old, new) pairs BCCacheSource.tla printed, as concrete texts, without repetitions"""
+    seen, out = set(), []
+    for line in r.printed():
+        if not line.startswith('{"'):
+            continue
+        rec = json.loads(line)
+        if "old" not in rec or "new" not in rec:
+            continue
+        key = (tuple(rec["old"]), tuple(rec["new"]))
+        if key in seen:
+            continue
+        seen.add(key)
+        out.append(("".join(CHAR[c] for c in key[0]), "".join(CHAR[c] for c in key[1]),
+                    f"{' '.join(key[0]) or '-'} -> {' '.join(key[1]) or '-'}"))
+    if not out:
+        raise core.MachineryError("BCCacheSource: TLC printed no edit pairs")
+    return out
+
+
 def write_tlc(tag, *, procs=2, use_temp=True, workers=4, coverage=False):
     cfg = f"""CONSTANTS
   Procs = {{{", ".join(f"p{i}" for i in range(1, procs + 1))}}}
@@ -274,7 +328,7 @@ def make_env(cfg, loader, bcc):
     if cfg == "sandboxed":
         return SandboxedEnvironment(**kw)
     opts = {"plain": {}, "autoescape": {"autoescape": True}, "trim": {"trim_blocks": True},
-            "async": {"enable_async": True}}[cfg]
+            "async": {"enable_async": True}, "ktn": {"keep_trailing_newline": True}}[cfg]
     return jinja2.Environment(**kw, **opts)
 
 
@@ -326,7 +380,7 @@ def refenv(cfg):
 
 
 class Real:
-    def __init__(self, store, binding, names, ignore, seed):
+    def __init__(self, store, binding, names, ignore, seed, texts=None):
         import jinja2
         from jinja2 import bccache
 
@@ -334,7 +388,8 @@ class Real:
         self.j, self.bccache = jinja2, bccache
         self.store, self.binding, self.names = store, dict(binding), list(names)
         self.rnd = random.Random(seed)
-        self.mapping = {n: source_text(n, 1) for n in names}
+        self.texts = texts           # {version: source text} (an edit pair of BCCacheSource.tla) or None
+        self.mapping = {n: self.text(n, 1) for n in names}
         self.dir = None
         if store == "fs":
             self.dir = tempfile.mkdtemp(prefix="jv_c27_", dir=SCRATCH)
@@ -359,11 +414,19 @@ class Real:
             shutil.rmtree(self.dir, ignore_errors=True)
             self.dir = None
 
-    def reset(self, seed):
+    def text(self, n, v):
+        """the source text of version v of template n"""
+        if self.texts:
+            return self.texts[str(v)]
+        return source_text(n, v)
+
+    def reset(self, seed, texts=None):
         """back to the initial state: empty cache, version 1 of every template, healthy client"""
         self.rnd = random.Random(seed)
+        if texts is not None:
+            self.texts = texts
         for n in self.names:
-            self.mapping[n] = source_text(n, 1)
+            self.mapping[n] = self.text(n, 1)
         self.cause.clear()
         if self.store == "fs":
             for fn in os.listdir(self.dir):
@@ -378,12 +441,13 @@ class Real:
 
     def ref(self, n, v, compile_cfg, run_env):
         """observation of: source version v of n compiled under compile_cfg, run in environment run_env"""
-        key = (n, v, compile_cfg, self.cfgs[run_env - 1])
+        text = self.text(n, v)
+        key = (n, text, compile_cfg, self.cfgs[run_env - 1])
         if key not in self.refcache:
             cenv, renv = self.refenvs[compile_cfg], self.refenvs[self.cfgs[run_env - 1]]
 
             def go():
-                code = cenv.compile(source_text(n, v), n, None)
+                code = cenv.compile(text, n, None)
                 tpl = renv.template_class.from_code(renv, code, renv.make_globals(None), None)
                 return tpl.render(**self.ctx())
 
@@ -460,7 +524,7 @@ class Real:
         if k == "loadclear":
             return self.load_during_clear(op[1], op[2], op[3], hint)
         if k == "modify":
-            self.mapping[op[1]] = source_text(op[1], op[2])
+            self.mapping[op[1]] = self.text(op[1], op[2])
         elif k == "clear":
             self.bc.clear()
             self.cause.clear()
@@ -602,6 +666,8 @@ def apply_edge(real, e, rec, hint=None):
     rec.trail.append([op, real.last_hint] if real.last_hint is not None else [op])
     m = rec.meta
     where = f"store={m['store']} configs={m['binding']} ignore_errors={m['ignore']} after {[t[0] for t in rec.trail[-6:]]}"
+    if real.texts:
+        where = f"sources={real.texts} ({m.get('pair', '')}) " + where
     verdict = True
     if op[0] == "loadclear" and not real.point_reached:
         rec.drift.append(f"{where}: the write never reached {op[3]}@{real.last_hint}")
@@ -630,6 +696,13 @@ def apply_edge(real, e, rec, hint=None):
                       "same_config": real.cfgs[0] == real.cfgs[1]}
                 during = f" (another environment called clear() at {op[3]}@{real.last_hint} of the write)" \
                     if op[0] == "loadclear" else ""
+                cur = e["s"]["src"][n]
+                stale = [v for v in (1, 2, 3) if v != cur and (not real.texts or str(v) in real.texts)
+                         and obs == real.ref(n, v, own, env)]
+                if stale:
+                    fp["defect"] = "stale-source-served"
+                    during += f" is what version {stale[0]} of the source ({real.text(n, stale[0])!r}) renders: " \
+                              f"the entry stored for it was taken for the current source {real.text(n, cur)!r};"
                 what = f"{where}: load by environment {env} ({own}){during} gave {obs}; the property allows only {want}"
                 rec.unexpected += 1
             rec.violation(fp["defect"], what, fp, e)
@@ -730,6 +803,61 @@ def replay_component(args):
     stats["drift"] = rec.drift[:5]
     stats["better"] = rec.better
     stats["samples"] = rec.samples
+    return stats
+
+
+def framed(frame, body):
+    """the template source an edit text of BCCacheSource.tla stands for"""
+    if frame == "bare":
+        return body
+    if frame == "after-long-text":      # the edited characters are the last ones of a long source
+        return "long " * 1200 + "{{ x }}|" + body
+    raise core.MachineryError(f"unknown frame {frame}")
+
+
+def replay_edit_pairs(args):
+    """versions 1, 2 of the load / modify / clear graph bound to every edit pair (old, new) of
+    BCCacheSource.tla in turn: two real environments over one real cache walk every edge of it"""
+    core.use_repo()
+    meta, edges, pairs, seed = args
+    G = graphwalk.Graph(edges, is_init)
+    rec = Recorder(dict(meta))
+    real = Real(meta["store"], meta["binding"], meta["names"], meta["ignore"], seed,
+                texts={"1": "", "2": "x"})
+    stats = {"edges": 0, "steps": 0, "restarts": 0, "unvisited": 0, "bad": 0, "pairs": 0}
+    counter = [0]
+
+    class Lease:
+        def __getattr__(self, name):
+            return getattr(real, name)
+
+        def close(self):
+            pass
+
+    try:
+        for old, new, label in pairs:
+            if rec.unexpected >= 5:
+                break
+            texts = {"1": framed(meta["frame"], old), "2": framed(meta["frame"], new)}
+            rec.meta = dict(meta, texts=texts, pair=label)
+
+            def make():
+                counter[0] += 1
+                del rec.trail[:]
+                real.reset(seed * 1000 + counter[0], texts)
+                return Lease()
+
+            st = graphwalk.walk(G, make, lambda r, e, fresh: apply_edge(r, e, rec), max_bad=1)
+            for k in ("edges", "steps", "restarts", "unvisited", "bad"):
+                stats[k] += st[k]
+            stats["pairs"] += 1
+    finally:
+        real.close()
+    stats["sweep_cases"] = 0
+    stats["viol"] = rec.viol
+    stats["drift"] = rec.drift[:5]
+    stats["better"] = rec.better
+    stats["samples"] = rec.samples[:1]
     return stats
 
 
@@ -970,7 +1098,7 @@ def load_own_findings(ck):
 def run(ck):
     quick = ck.tier == "quick"
     load_own_findings(ck)
-    with ThreadPoolExecutor(5) as ex:
+    with ThreadPoolExecutor(6) as ex:
         # -- 1. model checking -------------------------------------------------------------------
         mc = {
             "intended fs 2 configs": ex.submit(bcc_tlc, "int_fs", keycfg=True, coverage=quick,
@@ -984,6 +1112,11 @@ def run(ck):
             "as implemented, same config": ex.submit(bcc_tlc, "impl_same", cfgof=("c1", "c1")),
             "write protocol 2 procs": ex.submit(write_tlc, "w2", procs=2, coverage=quick),
         }
+        # the source texts behind the versions: every one-character edit of every text of the bounded family
+        src = {"source texts, one edit": ex.submit(src_tlc, "src", alpha=ALPHABET + ([] if quick else ALPHABET_MORE),
+                                                   maxlen=2, emit=True)}
+        if not quick:
+            src["source texts, one edit, 3 characters"] = ex.submit(src_tlc, "src3", alpha=ALPHABET, maxlen=3, emit=True)
         if not quick:
             mc["write protocol 3 procs"] = ex.submit(write_tlc, "w3", procs=3)
             mc["intended fs 3 versions"] = ex.submit(bcc_tlc, "int_fs3", keycfg=True, nversions=3)
@@ -994,6 +1127,8 @@ def run(ck):
                                                        invariants=["C27_DamagedIsMiss"]), "C27_DamagedIsMiss"),
             "direct write instead of temp+replace": (ex.submit(write_tlc, "wdirect", use_temp=False),
                                                      "C27_FinalNeverPartial"),
+            "checksum over line-normalised source": (ex.submit(src_tlc, "src_lines", alpha=ALPHABET, maxlen=1, cks="lines"),
+                                                     "C27_ChecksumSeparatesSources"),
         }
         # -- 2. graphs for the replay (mechanism-shaped key, guarded read) ------------------------
         gr = {
@@ -1004,6 +1139,8 @@ def run(ck):
                                 stages=("tempPartial",), graph=True),
             "mem1": ex.submit(bcc_tlc, "g_mem1", store="mem", ignore=True, graph=True),
             "mem0": ex.submit(bcc_tlc, "g_mem0", store="mem", ignore=False, graph=True),
+            "edit": ex.submit(bcc_tlc, "g_edit", cfgof=("c1", "c1"), trunc=(), foreign=False, stages=(),
+                              clear_stages=(), graph=True),
         }
         for label, f in mc.items():
             r = f.result()
@@ -1020,6 +1157,11 @@ def run(ck):
             r = f.result()
             ck.add_tlc(r, f"BCCache graph {label}")
             graphs[label] = edges_of(r)
+        pairs = {}
+        for label, f in src.items():
+            r = f.result()
+            ck.add_tlc(r, f"BCCacheSource {label}")
+            pairs[label] = edit_pairs_of(r)
     # -- 3. replay -----------------------------------------------------------------------------------
     same_b = [("plain", "plain")] + ([] if quick else [("async", "async"), ("sandboxed", "sandboxed")])
     diff_b = [("plain", "autoescape"), ("plain", "sandboxed"), ("plain", "async"), ("plain", "trim")]
@@ -1042,13 +1184,31 @@ def run(ck):
         task("mem", b, ["t"], True, graphs["mem1"], None)
         task("mem", b, ["t"], False, graphs["mem0"], None)
     tasks.sort(key=lambda t: -(len(t[1]) + (40000 if t[3] else 0)))
+    # versions 1, 2 bound to every edit pair of BCCacheSource.tla (both environments the same configuration)
+    etasks = []
+    variants = [("plain", "bare"), ("ktn", "bare"), ("ktn", "after-long-text")]
+    if not quick:
+        variants += [("trim", "bare"), ("sandboxed", "after-long-text")]
+    for label, plist in pairs.items():
+        vs = variants if "3 characters" not in label else variants[:2]
+        nchunks = max(1, min(16, len(plist) // 150))
+        for cfg, frame in vs:
+            for i in range(nchunks):
+                meta = {"store": "fs", "binding": {"c1": cfg, "c2": cfg}, "names": ["t"], "ignore": True, "frame": frame}
+                etasks.append((meta, graphs["edit"], plist[i::nchunks], ck.seed * 89 + len(etasks)))
+    ck.extra["edit_pairs"] = {label: len(plist) for label, plist in pairs.items()}
+    ck.extra["edit_pair_variants"] = [f"{c} / {f}" for c, f in variants]
     edges = steps = sweeps = better = unvisited = 0
     drift = []
     with ProcessPoolExecutor(max_workers=16) as ex:
         wt = ex.submit(record_write_traces, (ck.seed, 9 if quick else 1))
-        results = list(ex.map(replay_component, tasks))
+        results = [ex.submit(replay_component, t) for t in tasks]
+        eresults = [ex.submit(replay_edit_pairs, t) for t in etasks]
+        results = [f.result() for f in results]
         ntraces = validate_write_traces(ck, wt.result())
-        for t, st in zip(tasks, results):
+        eresults = [f.result() for f in eresults]
+        ck.extra["edit_pair_walks"] = sum(st["pairs"] for st in eresults)
+        for t, st in list(zip(tasks, results)) + list(zip(etasks, eresults)):
             edges += st["edges"]
             steps += st["steps"]
             sweeps += st["sweep_cases"]
@@ -1067,7 +1227,7 @@ def run(ck):
     ck.evaluations = steps
     ck.extra.update({
         "graph_edges_replayed": edges, "real_steps_executed": steps, "byte_offset_cases": sweeps,
-        "components": len(tasks), "edges_not_reached_because_the_code_left_the_model": unvisited,
+        "components": len(tasks) + len(etasks), "edges_not_reached_because_the_code_left_the_model": unvisited,
         "loads_better_than_modelled_mechanism": better,
     })
     if drift:
@@ -1097,8 +1257,8 @@ def replay(ck, rec):
     load_own_findings(ck)
     case = rec["case"]
     meta = {k: case[k] for k in ("store", "binding", "names", "ignore")}
-    real = Real(meta["store"], meta["binding"], meta["names"], meta["ignore"], 1)
-    r = Recorder(meta)
+    real = Real(meta["store"], meta["binding"], meta["names"], meta["ignore"], 1, texts=case.get("texts"))
+    r = Recorder(dict(meta, **{k: case[k] for k in ("texts", "pair", "frame") if k in case}))
     try:
         for item in case["ops"][:-1]:
             real.step(item[0], item[1] if len(item) > 1 else None)
